@@ -203,6 +203,53 @@ def r14b(model, ctx):
               "connect() must walk sorted(signature.members.flatten()) of every interface in lock step", f"{W}:{fc.lineno}")
 
 
+def _one_output_ok(fc):
+    """the tests on the number of outputs of a leaf, evaluated for 0..3 outputs in source order: none -> `continue`, one -> falls
+    through, several -> ConnectionError"""
+    ifs = sorted((n for n in ast.walk(fc) if isinstance(n, ast.If) and
+                  {x.id for x in ast.walk(n.test) if isinstance(x, ast.Name)} <= {"out_kind", "len"} and
+                  any(isinstance(x, ast.Name) and x.id == "out_kind" for x in ast.walk(n.test))), key=lambda n: n.lineno)
+    need(ifs, "connect: the tests on the number of output members were not found")
+
+    def ev(e, n):
+        if isinstance(e, ast.Name) and e.id == "out_kind":
+            return n > 0            # truthiness of the list
+        if isinstance(e, ast.Call) and unparse(e) == "len(out_kind)":
+            return n
+        c = const_int(e)
+        if c is not None:
+            return c
+        if isinstance(e, ast.UnaryOp) and isinstance(e.op, ast.Not):
+            return not ev(e.operand, n)
+        if isinstance(e, ast.BoolOp):
+            vals = [bool(ev(v, n)) for v in e.values]
+            return all(vals) if isinstance(e.op, ast.And) else any(vals)
+        if isinstance(e, ast.Compare) and len(e.ops) == 1:
+            a, b = ev(e.left, n), ev(e.comparators[0], n)
+            if isinstance(a, bool) or isinstance(b, bool):
+                need(False, f"connect: test `{unparse(e)}` not recognised")
+            ops = {ast.Eq: a == b, ast.NotEq: a != b, ast.Lt: a < b, ast.LtE: a <= b, ast.Gt: a > b, ast.GtE: a >= b}
+            need(type(e.ops[0]) in ops, f"connect: test `{unparse(e)}` not recognised")
+            return ops[type(e.ops[0])]
+        need(False, f"connect: test `{unparse(e)}` not recognised")
+
+    for n in range(4):
+        action = "through"
+        for s in ifs:
+            if bool(ev(s.test, n)):
+                last = s.body[-1]
+                if isinstance(last, ast.Continue):
+                    action = "skip"
+                elif isinstance(last, ast.Raise) and "ConnectionError" in unparse(last):
+                    action = "raise"
+                else:
+                    need(False, f"connect: the action of `if {unparse(s.test)}` is neither continue nor raise ConnectionError")
+                break
+        if action != ("skip" if n == 0 else "through" if n == 1 else "raise"):
+            return False
+    return True
+
+
 def r14c(model, ctx):
     R = "R-14c"
     fc = model.func(f"{W}::connect")
@@ -241,7 +288,7 @@ def r14c(model, ctx):
               "one, unconditionally, and raise ConnectionError on a mismatch — comparing the raw `init=` arguments first skips "
               "members whose shapes interpret the same argument differently", f"{W}:{pl.lineno}")
     t = unparse(fc)
-    ok = "if len(out_kind) != 1:" in t and "Cannot connect several output members" in t and "if len(out_kind) == 0:\n            continue" in t
+    ok = _one_output_ok(fc)
     ctx.check(ok, R, "connect:one-output", "zero outputs: nothing to connect; more than one: ConnectionError",
               "connect() must skip leaves without outputs and raise ConnectionError for leaves with several outputs", f"{W}:{fc.lineno}")
     ok = "is present in" in t and t.count("raise ConnectionError(f'Member ") >= 2
@@ -269,6 +316,11 @@ def r14d(model, ctx):
     d = {k.value: unparse(v) for k, v in zip(port[0].value.keys, port[0].value.values)}
     exp = {"type": "'port'", "name": "'__'.join((str(key) for key in path))", "dir": "'in' if member.flow == In else 'out'",
            "width": "cast_shape.width", "signed": "cast_shape.signed", "init": "str(member._init_as_const.value)"}
+    import re as _re
+    nm = d.get("name") or ""
+    # the same string, spelt with map() or a list comprehension or another loop variable
+    if nm == "'__'.join(map(str, path))" or _re.fullmatch(r"'__'\.join\(\[?\(?str\((\w+)\) for \1 in path\)?\]?\)", nm):
+        d["name"] = exp["name"]
     for k, v in exp.items():
         ctx.check(d.get(k) == v, R, f"as_json:port:{k}", v,
                   f"metadata field `{k}` of a port must be `{v}`; found `{d.get(k)}`" +
@@ -333,6 +385,12 @@ def r14e(model, ctx):
              and ".init" in unparse(n.test)]
     need(len(tests) == 1, "Signature.is_compliant: the comparison of a signal's init with the declared initial value was not found")
     t = tests[0]
+    if isinstance(t, ast.BoolOp) and isinstance(t.op, ast.And):
+        # `isinstance(x, Signal) and x.init != ...`: the guard merged into the comparison
+        parts = [v for v in t.values if "_init_as_const" in unparse(v)]
+        rest = [v for v in t.values if v not in parts]
+        if len(parts) == 1 and all(unparse(v).startswith("isinstance(") for v in rest):
+            t = parts[0]
     masked = any(isinstance(n, ast.BinOp) and isinstance(n.op, (ast.BitAnd, ast.BitXor, ast.Mod)) for n in ast.walk(t))
     plain = isinstance(t, ast.Compare) and len(t.ops) == 1 and isinstance(t.ops[0], (ast.NotEq, ast.Eq)) and \
         {unparse(t.left), unparse(t.comparators[0])} == {"attr_value_cast.init", "member._init_as_const.value"}
